@@ -3,7 +3,7 @@
 State = (mem: loc -> abstract value, C: CSet).  Values are symbolic linear expressions over
 immutable symbols; joins introduce fresh symbols.  Local callees are inlined.
 """
-import json, glob, sys, itertools, collections, os
+import json, glob, sys, itertools, collections, os, re
 import time
 from .lin import *
 
@@ -160,6 +160,7 @@ class Analyzer:
         self.sum_stack = []      # active Summary objects
         self.use_summaries = True
         self.havoc_threshold = None
+        self._joined_defs = None
         self.keep_instates = False
         self.last_instate = {}
         self._csize = {}
@@ -554,6 +555,16 @@ class Analyzer:
                 TRUNC_OF[next(iter(r.e.atoms()))] = x
                 return r
             if rv["kind"].startswith("PointerCoercion(Unsize"):
+                # &[T; N] -> &[T]: the slice is exactly N long
+                sty = rv["x"].get("ty") or rv["x"].get("place", {}).get("ty") or {}
+                to = sty.get("to") or {}
+                if isinstance(a, Ref) and to.get("k") == "array":
+                    m_ = re.match(r"^(\d+)_usize$", str(to.get("n", "")))
+                    if m_:
+                        key_ = a.loc + "#len"
+                        cur_ = st.mem.get(key_)
+                        if cur_ is None or not isinstance(cur_, Int) or st.C.bounds(cur_.e) != (int(m_.group(1)), int(m_.group(1))):
+                            st.mem[key_] = Int(int(m_.group(1)))
                 return a
             if rv["kind"] in ("PtrToPtr", "Transmute"):
                 return a
@@ -1065,7 +1076,9 @@ class Analyzer:
         if isinstance(a, Int):
             s = fresh(hint)
             A.C.add(eq(s, a.e)); B.C.add(eq(s, b.e))
-            if self._joined is not None and len(self._joined) < 24: self._joined.append(s)
+            if self._joined is not None and len(self._joined) < 24:
+                self._joined.append(s)
+                if self._joined_defs is not None: self._joined_defs.append((s, a.e, b.e))
             if self._changed is not None: self._changed.append((hint + "#" + str(len(self._changed)), a.e, b.e, lin(s)))
             return Int(s)
         if isinstance(a, Bool): return Bool("unk")
@@ -1101,6 +1114,7 @@ class Analyzer:
         R = State()
         self._changed = [] if head_first else None
         self._joined = []
+        self._joined_defs = []
         changed = []   # (key, eA, eB, sym) for Int cells that differ
         for k in sorted(set(A.mem) | set(B.mem)):
             if k.endswith("#ty"):
@@ -1180,6 +1194,34 @@ class Analyzer:
                 la, ha = PA.bounds(lin(s_)); lb, hb = PB.bounds(lin(s_))
                 if la is not None and lb is not None: R.C.add(ge(lin(s_), min(la, lb)))
                 if ha is not None and hb is not None and max(ha, hb) < (1 << 62): R.C.add(le(lin(s_), max(ha, hb)))
+        jdefs, self._joined_defs = self._joined_defs or [], None
+        if len(jdefs) >= 2 and not os.environ.get("E4_NOPAIRS"):
+            # two joined integers whose difference is the same expression on both sides keep that difference (`n = len - start` computed
+            # on either branch before the join: the joined n and the joined len are still `start` apart).  Purely syntactic, hence cheap.
+            live = self.live_atoms(R)
+            jl = [(s_, ea_, eb_) for (s_, ea_, eb_) in jdefs if s_ in live][:16]
+            for i_, (s1, ea1, eb1) in enumerate(jl):
+                for (s2, ea2, eb2) in jl[i_ + 1:]:
+                    da, db = ea1 - ea2, eb1 - eb2
+                    if da.key() == db.key() and len(da.t) <= 2 and not (set(da.atoms()) - keep):
+                        cands.append(Con((lin(s1) - lin(s2)) - da, "eq"))
+        if joined and widen_ and not os.environ.get("E4_NOSEMWIDEN"):
+            # widening on meaning, not on spelling: a bound of a joined integer (absolute, or relative to an argument / buffer
+            # length of the function) that the old state has and the new state still satisfies is stable, whether or not the old
+            # state happens to have it written down as one constraint.  A bound is only ever kept or dropped: termination as before.
+            live = self.live_atoms(R)
+            common = PA.atoms() & PB.atoms()
+            refs = sorted(a_ for a_ in (self.entry_atoms & common) if not a_.startswith("_"))[:6]
+            for s_ in joined:
+                if s_ not in live: continue
+                for e_ in [None] + refs:
+                    if e_ == s_: continue
+                    d_ = lin(s_) if e_ is None else lin(s_) - lin(e_)
+                    la, ha = PA.bounds(d_)
+                    if la is None and ha is None: continue
+                    lb, hb = PB.bounds(d_)
+                    if la is not None and lb is not None and lb >= la and abs(la) < (1 << 40): cands.append(ge(d_, la))
+                    if ha is not None and hb is not None and hb <= ha and abs(ha) < (1 << 40): cands.append(le(d_, ha))
         for c in cands:
             if PA.entails(c) and PB.entails(c):
                 R.C.add(c)
@@ -1714,6 +1756,13 @@ def m_index(an, st, args, dty, site, callee, t):
             return ret1(st, Slice(s.base, s.off, b))
     raise Unmodelled(f"index with {idx}")
 
+def m_split_at(an, st, args, dty, site, callee, t):
+    """<[T]>::split_at(mid) / split_at_mut: two views of the same bytes, (.., mid) and (mid, ..); panics when mid > len"""
+    s = an.as_slice(st, args[0]); mid = an.as_int(st, args[1])
+    an.oblige(st, [ge(mid, 0), le(mid, s.ln)], site, "range_to", f"{mid} <= {s.ln}")
+    st.assume([le(mid, s.ln)])
+    return ret1(st, Enum("(tuple)", 0, {(0, 0): Slice(s.base, s.off, mid), (0, 1): Slice(s.base, s.off + mid, s.ln - mid)}))
+
 def m_read(nbytes):
     def h(an, st, args, dty, site, callee, t):
         s = an.as_slice(st, args[0])
@@ -1918,6 +1967,46 @@ def m_and_then(an, st, args, dty, site, callee, t):
         if not done: out.append((s1, an.default_value(s1, dty, fresh("tmp"))))
     s0 = st.copy(); s0.C.add(eq(a.discr, 0))
     if not s0.C.infeasible(): out.append((s0, Enum(a.adt, 0, {})))
+    return out
+
+def _apply_closure(an, st, clo, cargs, dty):
+    """[(state, value)] of calling a closure value with the given (untupled) arguments; None when it is not a local closure"""
+    if isinstance(clo, Enum) and clo.adt.startswith("(closure)"):
+        key = clo.adt[len("(closure)"):]
+        if key in an.fns:
+            return list(an.analyze(key, [clo] + list(cargs), st))
+    return None
+
+def m_map_or(an, st, args, dty, site, callee, t):
+    """Option::map_or(default, f) / Result::map_or(default, f)"""
+    a, dflt, clo = args
+    if not isinstance(a, Enum): return m_opaque(an, st, args, dty, site, callee, t)
+    some_d = 1 if a.adt.startswith("std::option::Option") else 0
+    out = []
+    s1 = st.copy(); s1.C.add(eq(a.discr, some_d))
+    if not s1.C.infeasible():
+        r = _apply_closure(an, s1, clo, [a.fields.get((some_d, 0), Unk())], dty)
+        if r is None: out.append((s1, an.default_value(s1, dty, fresh("tmp"))))
+        else: out += r
+    s0 = st.copy(); s0.C.add(eq(a.discr, 1 - some_d))
+    if not s0.C.infeasible(): out.append((s0, dflt))
+    return out
+
+def m_map_or_else(an, st, args, dty, site, callee, t):
+    a, dclo, clo = args
+    if not isinstance(a, Enum): return m_opaque(an, st, args, dty, site, callee, t)
+    some_d = 1 if a.adt.startswith("std::option::Option") else 0
+    out = []
+    s1 = st.copy(); s1.C.add(eq(a.discr, some_d))
+    if not s1.C.infeasible():
+        r = _apply_closure(an, s1, clo, [a.fields.get((some_d, 0), Unk())], dty)
+        if r is None: out.append((s1, an.default_value(s1, dty, fresh("tmp"))))
+        else: out += r
+    s0 = st.copy(); s0.C.add(eq(a.discr, 1 - some_d))
+    if not s0.C.infeasible():
+        r = _apply_closure(an, s0, dclo, [] if some_d == 1 else [a.fields.get((1, 0), Unk())], dty)
+        if r is None: out.append((s0, an.default_value(s0, dty, fresh("tmp"))))
+        else: out += r
     return out
 
 def m_max(an, st, args, dty, site, callee, t):
@@ -2255,6 +2344,8 @@ MODELS = {
     "<byteorder::BigEndian as byteorder::ByteOrder>::write_u16": m_write(2),
     "<byteorder::BigEndian as byteorder::ByteOrder>::write_u32": m_write(4),
     "core::slice::<impl [T]>::copy_from_slice": m_copy_from_slice,
+    "core::slice::<impl [T]>::split_at": m_split_at,
+    "core::slice::<impl [T]>::split_at_mut": m_split_at,
     "std::option::Option::<T>::expect": m_unwrap,
     "std::result::Result::<T, E>::unwrap": m_unwrap,
     "std::result::Result::<T, E>::expect": m_unwrap,
@@ -2275,8 +2366,8 @@ MODELS = {
     "<&mut I as std::iter::Iterator>::next": m_refmut_iter_next,
     "core::array::<impl std::ops::Index<I> for [T; N]>::index": m_array_index,
     "core::array::<impl std::ops::IndexMut<I> for [T; N]>::index_mut": m_array_index,
-    "std::option::Option::<T>::map_or": m_opaque,
-    "std::option::Option::<T>::map_or_else": m_opaque,
+    "std::option::Option::<T>::map_or": m_map_or,
+    "std::option::Option::<T>::map_or_else": m_map_or_else,
     # read-only predicates / peeks on a slice: no panic, no effect, result unknown
     "core::slice::<impl [T]>::ends_with": m_opaque,
     "core::slice::<impl [T]>::starts_with": m_opaque,
